@@ -192,7 +192,8 @@ fn main() {
         let step = (*n / take.max(1)).max(1);
         for k in (0..*n).step_by(step).take(take) {
             let s = &cat.sources[at + k];
-            if s.text.len() <= 200 {
+            // short sources, plus the few-KB "medium" class (ids M..)
+            if s.text.len() <= 200 || (s.id.starts_with('M') && s.text.len() <= 20_000) {
                 if let Some(key) = refs.get(&s.id) {
                     if key.starts_with("R:") {
                         pool.push((s.id.clone(), s.text.clone(), key.clone()));
